@@ -101,7 +101,19 @@ func buildSchema() graphql.Schema {
 		}
 		fields[fmt.Sprintf("f%d", k)] = f
 	}
-	schema, err := graphql.NewSchema(graphql.SchemaConfig{Query: graphql.NewObject(graphql.ObjectConfig{Name: "Query", Fields: fields})})
+	// the same gated resolvers as serial top-level mutation fields m0 … m5
+	mfields := graphql.Fields{}
+	for k := 0; k < maxN; k++ {
+		f := &graphql.Field{Type: graphql.Int, Resolve: resolver(k)}
+		if k == 0 {
+			f.Args = graphql.FieldConfigArgument{"a": &graphql.ArgumentConfig{Type: gateScalar}}
+		}
+		mfields[fmt.Sprintf("m%d", k)] = f
+	}
+	schema, err := graphql.NewSchema(graphql.SchemaConfig{
+		Query:    graphql.NewObject(graphql.ObjectConfig{Name: "Query", Fields: fields}),
+		Mutation: graphql.NewObject(graphql.ObjectConfig{Name: "Mutation", Fields: mfields}),
+	})
 	if err != nil {
 		panic(err)
 	}
@@ -235,6 +247,7 @@ type caseT struct {
 	Race  bool   `json:"race"`  // release the blocked step and end the context concurrently
 	Ctx   string `json:"ctx"`   // cancel | manualDeadline | timeout | pastDeadline
 	Entry string `json:"entry"` // do | plan
+	Op    string `json:"op"`    // query (default) | mutation (serial top-level fields m0 … m(n-1))
 }
 
 type observation struct {
@@ -261,19 +274,23 @@ type modelResp struct {
 }
 
 func query(c caseT) (string, map[string]interface{}) {
+	op, pre := "query", "f"
+	if c.Op == "mutation" {
+		op, pre = "mutation", "m"
+	}
 	if c.N == 0 {
-		return `query Q { __typename }`, nil
+		return op + ` Q { __typename }`, nil
 	}
 	var b strings.Builder
 	vars := map[string]interface{}(nil)
 	if c.Coerce {
-		b.WriteString(`query Q($v: Gate) { f0(a: $v)`)
+		fmt.Fprintf(&b, `%s Q($v: Gate) { %s0(a: $v)`, op, pre)
 		vars = map[string]interface{}{"v": 1}
 	} else {
-		b.WriteString(`query Q { f0`)
+		fmt.Fprintf(&b, `%s Q { %s0`, op, pre)
 	}
 	for k := 1; k < c.N; k++ {
-		fmt.Fprintf(&b, " f%d", k)
+		fmt.Fprintf(&b, " %s%d", pre, k)
 	}
 	b.WriteString(" }")
 	return b.String(), vars
@@ -289,7 +306,7 @@ func main() {
 	}
 	defer drv.Close()
 	schema := buildSchema()
-	run.Res.Rule = "query { f0 … f(n-1) } with n = 0..6 sequential top-level resolvers, each blocking on its own gate; every resolver fails or not and watches ctx.Done() or not; optional gate inside variable coercion (custom scalar ParseValue); the context ends at one point: never / before the call / while step k is blocked (every k) / after the call returned / concurrently with the release of step k (race); context kinds: cancel, harness-triggered deadline (custom Context, Err = DeadlineExceeded), real WithTimeout, deadline already past, and the same with an explicit cause (WithCancelCause, WithTimeoutCause, WithDeadlineCause — own and inherited from a parent context; the response must carry ctx.Err(), not context.Cause); entries graphql.Do and PlanQuery+ExecutePlan; the run is recorded as model actions and validated by the compiled Lean model, the returned Result is compared with the model's expected Result; non-trivial = n >= 1; distinct by the whole case"
+	run.Res.Rule = "query { f0 … f(n-1) } and mutation { m0 … m(n-1) } (serial top-level fields) with n = 0..6 sequential top-level resolvers, each blocking on its own gate; every resolver fails or not and watches ctx.Done() or not; optional gate inside variable coercion (custom scalar ParseValue); the context ends at one point: never / before the call / while step k is blocked (every k) / after the call returned / concurrently with the release of step k (race); context kinds: cancel, harness-triggered deadline (custom Context, Err = DeadlineExceeded), real WithTimeout, deadline already past, and the same with an explicit cause (WithCancelCause, WithTimeoutCause, WithDeadlineCause — own and inherited from a parent context; the response must carry ctx.Err(), not context.Cause); entries graphql.Do and PlanQuery+ExecutePlan; the run is recorded as model actions and validated by the compiled Lean model, the returned Result is compared with the model's expected Result; non-trivial = n >= 1; distinct by the whole case"
 
 	one := func(c caseT) {
 		steps := c.N
@@ -614,13 +631,18 @@ func main() {
 			rs = append(rs, map[string]bool{"fails": c.Fails[k], "observes": c.Observes[k]})
 		}
 		var m modelResp
-		if err := drv.Ask(map[string]interface{}{"rs": rs, "skipFirst": c.Coerce, "cap": nil, "acts": obs.Trace}, &m); err != nil {
+		if err := drv.Ask(map[string]interface{}{"rs": rs, "skipFirst": c.Coerce, "cap": nil, "acts": obs.Trace, "prefix": map[bool]string{false: "f", true: "m"}[c.Op == "mutation"]}, &m); err != nil {
 			run.CheckError(err.Error())
 			return
 		}
 		run.Tag(fmt.Sprintf("n:%d", c.N))
 		run.Tag("ctx:" + c.Ctx)
 		run.Tag("entry:" + c.Entry)
+		if c.Op == "mutation" {
+			run.Tag("op:mutation")
+		} else {
+			run.Tag("op:query")
+		}
 		switch {
 		case c.Point == -2:
 			run.Tag("point:never")
@@ -770,10 +792,18 @@ func main() {
 								continue
 							}
 							for _, entry := range []string{"do", "plan"} {
-								if run.TooManyViolations() {
-									break
+								for _, op := range []string{"query", "mutation"} {
+									if run.TooManyViolations() {
+										break
+									}
+									if op == "mutation" && n == 0 {
+										continue // a mutation needs a field
+									}
+									if op == "mutation" && !run.Thorough() && (strings.Contains(cx, "Cause") || (race && n > 3)) {
+										continue // quick tier: mutations with the plain context kinds
+									}
+									one(caseT{N: n, Fails: ks[0], Observes: ks[1], Coerce: coerce, Point: point, Race: race, Ctx: cx, Entry: entry, Op: op})
 								}
-								one(caseT{N: n, Fails: ks[0], Observes: ks[1], Coerce: coerce, Point: point, Race: race, Ctx: cx, Entry: entry})
 							}
 						}
 					}
